@@ -61,6 +61,16 @@ CHECKS = {
             "Grouping map: every history of length <= 7 (8) over {insert(k,v,Local|Global), begin_group, end_group} on both GroupingHashMap and GroupingVec without merging, and BFS to depth 11 (14) with merging on the container's own iter_all/drain state, compared with reftex::scope after every step; replay law from_iter(iter_all()) checked at every state incl. continuations. Interner: every history <= 5 (6) of get_or_intern/get/resolve over prefix-sharing strings under RandomState and under a constant hasher, with a serde round trip at every position. KMP matcher: every pattern <= 5 x text <= 12 over {a,b}, <= 4 x <= 10 (12) over {a,b,c}. Tags: EVERY schedule (shuttle check_dfs, no bound) of 2-3 threads x Tag::new / StaticTag::get: all tags pairwise distinct, every get() equal, no deadlock; 3.7e4 (3.5e7) schedules.",
             "Trusted: reftex::scope, naive search, Vec<String>; the 110-line seam module (commit b5096a6, cfg texcraft_verif_sched) whose OnceLock follows the contract of std's get_or_init; shuttle explores sequentially consistent interleavings at lock acquire/release (adequate for mutex-protected sections; data races are outside). GroupingVec == is judged only when slot counts agree (derived PartialEq distinguishes [None] from []; not observable behaviour).",
             "3 C20"),
+    "C02": ("exploration",
+            "bounded-exhaustive enumeration of (parameter text x replacement text x call token string) on a minimal-state real VM against two independent reference matchers",
+            "342 definitions (prefix in {-, a, ab} x 0-2 parameters, each undelimited or delimited by ., ab, aa (self-overlapping: the KMP fallback path), a., \\x, space, with and without the trailing #{ form) x EVERY token string of up to 5 (7) tokens over {a b . { } space \\x} (unbalanced ones included), a 3-parameter family, argument tuples of 1-3 (4) parameters x 10/17 argument shapes (empty, single token, single group, several groups, nested, leading spaces, delimiter characters with other catcodes), nine-parameter families x 3^9 (5^9) tuples, and replacement texts over {x \\x space ## {} #i {#i}} under \\def / \\gdef / \\global\\def: the exact token list after one expansion step (observed verbatim by a \\capture primitive) equals the reference expansion plus the untouched rest wherever the call matches. 1.8e7 (7.7e8) cases.",
+            "Trusted: reftex::macros, which carries two independent formulations (a transliteration of tex.web 389-400/473-479 and a declarative statement of the TeXbook ch. 20 rules) that must agree on every case, self-validated against 13 expectations of the repository's def.rs tests. Calls that do not match are outside the property: only no-panic and a located error are required there. \\par/\\long/\\outer are error paths covered by C09.",
+            "3 C02"),
+    "C07": ("exploration",
+            "bounded-exhaustive enumeration of conditional trees (expected output by construction) and of \\expandafter/\\noexpand token strings with a three-way comparison simple / optimised / reference expander",
+            "288 conditions (\\iftrue, \\iffalse, \\ifnum x 3 relations, \\ifodd incl. negative and extreme values, \\ifcase incl. out of range) x 10 contexts; all trees of up to 3 nodes over 22 node variants and up to 5 (6) nodes, depth 4, over 5 variants, with junk inserted in skipped branches (unbalanced braces, \\or/\\else at depth >= 1, a macro hiding \\fi, conditionals aliased by \\let); depth-6 chains with up to 2 deviations: delivered tokens equal the letters of the selected branches. Every string of up to 6 (7) symbols over {\\expandafter, a second name for it, \\noexpand, three macros, \\relax, x, \\iftrue, \\iffalse, \\else, \\fi} in four macro environments plus structured chains and pyramids is run with get_expandafter_simple, with get_expandafter_optimized and through the reference expander: all three deliver the same tokens or all fail. 8.6e6 (2.9e8) cases.",
+            "Trusted: reftex::cond (by-construction expectation and a reference expander transliterating tex.web 358, 366-369, 440-445, 494-510; the two must agree on every tree), self-validated against 26 expectations of the repository's tests. Operands are space-terminated (the unterminated idiom \\ifnum1<2\\else is outside the quantifier). Known finding D18 (dont_expand marker lost under \\expandafter) matched by predicate + expander with keep_marker=false.",
+            "3 C07"),
     "C03": ("exploration",
             "bounded-exhaustive enumeration of source strings x catcode tables (0, 1, 2 deviations) x end-line characters through the real Lexer and Tracer against a transliteration of TeX's line scanner",
             "Every string of up to 6 (7) characters over a 9-character alphabet (escape, brace, ^, space, newline, letters, %, non-ASCII) and a ^^-heavy alphabet, up to 4 (6) over a 16-character alphabet (CR, NUL, DEL, ~, digits, TAB), with every single and every pair of category-code reassignments among the characters that occur or can be produced by a ^^ reduction, 7 end-line characters plus a sweep of every ASCII end-line character x its 16 catcodes, both report_end_of_line flags, and a family where the configuration changes between calls: every token is compared on value, line number, column, line text and trace value; lexing must not panic or exhaust trace keys. 4.8e7 (1.36e9) cases.",
